@@ -102,6 +102,8 @@ def check(cx):
     seen = set()
     for fid in sorted(pager_scope):
         f = p.fns[fid]
+        if p.inline_mode and p.transparent(f.root or fid):
+            continue            # judged, inlined, in the functions that call it
         for c in f.calls():
             latch = False
             if len(c.dst) == 1:
